@@ -64,6 +64,21 @@ impl<K, V> HashMap<K, V> {
     pub fn clear(&mut self)
         ensures final(self)@ == Map::<K, V>::empty(),
     { unimplemented!() }
+    // `for (k, v) in map.iter_mut()`: a slice iterator over the entries in iteration order; each entry's final value is what
+    // was written through its item borrow (keys are only read by the code)
+    #[verifier::external_body]
+    pub fn iter_mut(&mut self) -> (r: core::slice::IterMut<'_, (K, V)>)
+        ensures
+            r.obeys_prophetic_iter_laws(), r.decrease() is Some,
+            r.remaining().len() == old(self).entries().len(),
+            forall|i: int| 0 <= i < old(self).entries().len() ==> *(#[trigger] r.remaining()[i]) == old(self).entries()[i],
+            final(self).entries().len() == old(self).entries().len(),
+            forall|i: int| 0 <= i < old(self).entries().len() ==> #[trigger] final(self).entries()[i] == *final(r.remaining()[i]),
+    { unimplemented!() }
+    #[verifier::external_body]
+    pub fn keys(&self) -> (r: &Vec<K>)
+        ensures r@.len() == self.entries().len(), forall|i: int| 0 <= i < r@.len() ==> #[trigger] r@[i] == self.entries()[i].0,
+    { unimplemented!() }
     // `for v in map.values()`: the values in iteration order
     #[verifier::external_body]
     pub fn values(&self) -> (r: &Vec<V>)
